@@ -380,3 +380,180 @@ fn c18_purity_darray() {
     core::mem::forget(da);
     core::mem::forget(snap);
 }
+
+// ------------------------------------------------------------------ assembled concrete DArray<true>, symbolic k
+
+/// positions of ones (11) and of zeros (180) of the 191-bit test vector, computed at compile time
+const ONES: [usize; 11] = [0, 12, 33, 42, 55, 61, 62, 63, 128, 129, 190];
+const fn is_one(p: usize) -> bool {
+    let mut t = 0;
+    while t < 11 {
+        if ONES[t] == p {
+            return true;
+        }
+        t += 1;
+    }
+    false
+}
+const fn zeros_of() -> [usize; 180] {
+    let mut z = [0usize; 180];
+    let mut k = 0;
+    let mut p = 0;
+    while p < 191 {
+        if !is_one(p) {
+            z[k] = p;
+            k += 1;
+        }
+        p += 1;
+    }
+    z
+}
+const ZEROS: [usize; 180] = zeros_of();
+const fn words_of() -> [u64; W] {
+    let mut w = [0u64; W];
+    let mut t = 0;
+    while t < 11 {
+        w[ONES[t] >> 6] |= 1u64 << (ONES[t] & 63);
+        t += 1;
+    }
+    w
+}
+const WORDS191: [u64; W] = words_of();
+const fn zero_subs() -> [u16; 6] {
+    let mut s = [0u16; 6];
+    let mut q = 0;
+    while q < 6 {
+        s[q] = (ZEROS[32 * q] - ZEROS[0]) as u16;
+        q += 1;
+    }
+    s
+}
+
+fn assembled_191() -> DArray<true> {
+    // inventories written from the layout law (L) for one dense group of ones and one dense group of zeros
+    let ones = Inventories::<true> {
+        n_sets: 11,
+        block_inventory: vec![ONES[0] as i64].into_boxed_slice(),
+        subblock_inventory: vec![0u16].into_boxed_slice(),
+        overflow_positions: Vec::new().into_boxed_slice(),
+    };
+    let zeros = Inventories::<false> {
+        n_sets: 180,
+        block_inventory: vec![ZEROS[0] as i64].into_boxed_slice(),
+        subblock_inventory: zero_subs().to_vec().into_boxed_slice(),
+        overflow_positions: Vec::new().into_boxed_slice(),
+    };
+    DArray::<true> { bv: mk_imm_line(&WORDS191, 191), ones_inventories: ones, zeroes_inventories: Some(zeros) }
+}
+
+// @h props=C07,C04,C10,C18 tier=quick family=A mem=8 timeout=1800 stubs=utils::select_in_word->contract role=darray.assembled191
+// @bound DArray<true> assembled over a concrete 191-bit vector (11 ones, 180 zeros) with inventories written from the layout law: select1 / select0 / get for every k of the machine range, interleaved and repeated (same answers: no hidden state), unchecked forms on valid k
+// @funcs DArray::select1, DArray::select0, DArray::select1_unchecked, DArray::select0_unchecked, DArray::select, DArray::get, DArray::len, DArray::count_ones, DArray::count_zeros
+#[kani::proof]
+#[kani::unwind(12)]
+#[kani::stub(crate::utils::select_in_word, crate::utils::verif_utils_stubs::select_in_word_contract)]
+fn c07_assembled_191() {
+    let da = assembled_191();
+    assert!(da.len() == 191 && da.count_ones() == 11 && da.count_zeros() == 180 && !da.is_empty());
+    let k: usize = kani::any();
+    let a1 = da.select1(k);
+    let b1 = da.select0(k);
+    assert!(a1 == if k < 11 { Some(ONES[k % 11]) } else { None });
+    assert!(b1 == if k < 180 { Some(ZEROS[k % 180]) } else { None });
+    // again, in the other order: a query leaves no trace that a later query could observe (C18)
+    let b2 = da.select0(k);
+    let a2 = da.select1(k);
+    assert!(a2 == a1 && b2 == b1);
+    if k < 11 {
+        assert!(unsafe { da.select1_unchecked(k) } == ONES[k % 11]);
+    }
+    if k < 180 {
+        assert!(unsafe { da.select0_unchecked(k) } == ZEROS[k % 180]);
+    }
+    let g = da.get(k);
+    assert!(g == if k < 191 { Some((WORDS191[(k % 191) >> 6] >> (k & 63)) & 1 == 1) } else { None });
+    kani::cover!(k == 179, "last zero");
+    kani::cover!(k == 10, "last one");
+    kani::cover!(k == usize::MAX, "largest k");
+    core::mem::forget(da);
+}
+
+mod runs320 {
+    //! 320 bits: zeros 0..10, ones 10..200 (two whole words of ones inside), zeros 200..320:
+    //! select0's scan has to cross all-ones words, select1's scan all-zero territory after the run.
+    use super::*;
+    pub(super) const N: usize = 320;
+    pub(super) const N1: usize = 190;
+    pub(super) const N0: usize = 130;
+    pub(super) const fn is_one(p: usize) -> bool {
+        p >= 10 && p < 200
+    }
+    pub(super) const fn positions<const K: usize>(want: bool) -> [usize; K] {
+        let mut z = [0usize; K];
+        let mut k = 0;
+        let mut p = 0;
+        while p < N {
+            if is_one(p) == want {
+                z[k] = p;
+                k += 1;
+            }
+            p += 1;
+        }
+        z
+    }
+    pub(super) const ONES: [usize; N1] = positions::<N1>(true);
+    pub(super) const ZEROS: [usize; N0] = positions::<N0>(false);
+    pub(super) const fn words() -> [u64; W] {
+        let mut w = [0u64; W];
+        let mut p = 0;
+        while p < N {
+            if is_one(p) {
+                w[p >> 6] |= 1u64 << (p & 63);
+            }
+            p += 1;
+        }
+        w
+    }
+    pub(super) const WORDS: [u64; W] = words();
+    pub(super) const fn subs<const K: usize, const Q: usize>(pos: &[usize; K]) -> [u16; Q] {
+        let mut s = [0u16; Q];
+        let mut q = 0;
+        while q < Q {
+            s[q] = (pos[32 * q] - pos[0]) as u16;
+            q += 1;
+        }
+        s
+    }
+}
+
+// @h props=C07,C04,C10,C18 tier=quick family=A mem=8 timeout=1800 stubs=utils::select_in_word->contract role=darray.assembled320
+// @bound DArray<true> assembled over the concrete 320-bit vector 0^10 1^190 0^120 (runs covering whole words) with inventories written from the layout law: select1 / select0 for every k of the machine range, interleaved and repeated
+// @funcs DArray::select1, DArray::select0, DArray::select, BitVector::get_word
+#[kani::proof]
+#[kani::unwind(12)]
+#[kani::stub(crate::utils::select_in_word, crate::utils::verif_utils_stubs::select_in_word_contract)]
+fn c07_assembled_runs320() {
+    use runs320::*;
+    let ones = Inventories::<true> {
+        n_sets: N1,
+        block_inventory: vec![ONES[0] as i64].into_boxed_slice(),
+        subblock_inventory: subs::<N1, 6>(&ONES).to_vec().into_boxed_slice(),
+        overflow_positions: Vec::new().into_boxed_slice(),
+    };
+    let zeros = Inventories::<false> {
+        n_sets: N0,
+        block_inventory: vec![ZEROS[0] as i64].into_boxed_slice(),
+        subblock_inventory: subs::<N0, 5>(&ZEROS).to_vec().into_boxed_slice(),
+        overflow_positions: Vec::new().into_boxed_slice(),
+    };
+    let da = DArray::<true> { bv: mk_imm_line(&WORDS, N), ones_inventories: ones, zeroes_inventories: Some(zeros) };
+    let k: usize = kani::any();
+    let a1 = da.select1(k);
+    let b1 = da.select0(k);
+    assert!(a1 == if k < N1 { Some(ONES[k % N1]) } else { None });
+    assert!(b1 == if k < N0 { Some(ZEROS[k % N0]) } else { None });
+    assert!(da.select0(k) == b1 && da.select1(k) == a1);
+    kani::cover!(k == 10, "first zero after the run of ones");
+    kani::cover!(k == N1 - 1, "last one");
+    core::mem::forget(da);
+}
